@@ -87,7 +87,7 @@ impl Engine {
             if self.prog_slot.contains_key(&c.prog.name) {
                 continue;
             }
-            if c.prog.is_corpus() {
+            if c.prog.is_corpus() || self.corpus_specs.iter().any(|p| p.name == c.prog.name) {
                 need_corpus = true;
             } else {
                 gen.insert(c.prog.name.clone(), c.prog.clone());
